@@ -26,7 +26,7 @@ var okResp = func() []byte { b, _ := hio.Marshal("ok"); return append(append([]b
 func TestCheck(t *testing.T) {
 	r := h.Start(t, "C17")
 	defer r.Finish()
-	r.Meta("rule", "under virtual time. Concurrent limiter: max in {1,2,5} x limiter timeout {none, 1ms, 20ms, 1s} x seeded arrival scripts of 1..64 requests (arrival instants on a 1 ms grid so that timeouts, arrivals and releases coincide), service times 0..30 ms, outcomes return/error/panic; monitors: in-flight counter inside the next handler (maximum must be <= max), exact return instant of timed-out waiters, ConcurrentRequests()==0 at quiescence, and a fresh batch of max requests released at one instant must all be inside simultaneously afterwards (not wedged, no permit lost or leaked). Rate limiter: rate in {1,10,1000}/s x maxPermits {inf,1,10} x timeout {0, 50ms, exact boundaries +-1ns} x token sizes (invoke path 1 token, IO path len(request)) x sequential arrival scripts: every window [i,j] of admissions is checked against burst + rate*elapsed + slack, every rejection against a reference bucket charged with admitted requests only, every wait against the timeout; concurrent: same-instant parallel bursts against a full bucket. distinct_nontrivial = distinct (limiter configuration, script) pairs with at least one contended or delayed request")
+	r.Meta("rule", "under virtual time. Concurrent limiter: max in {1,2,5} x limiter timeout {none, 1ms, 20ms, 1s} x seeded arrival scripts of 1..64 requests (arrival instants on a 1 ms grid so that timeouts, arrivals and releases coincide), service times 0..30 ms, outcomes return/error/panic; monitors: in-flight counter inside the next handler (maximum must be <= max), exact return instant of timed-out waiters, ConcurrentRequests()==0 at quiescence, and a fresh batch of max requests released at one instant must all be inside simultaneously afterwards (not wedged, no permit lost or leaked). Rate limiter: rate in {1,10,1000}/s x maxPermits {inf,0,1,10} x timeout {0, 50ms, exact boundaries +-1ns} x token sizes (invoke path 1 token, IO path len(request)) x sequential arrival scripts: every window [i,j] of admissions is checked against burst + rate*elapsed + slack, every rejection against a reference bucket charged with admitted requests only, every wait against the timeout; concurrent: same-instant parallel bursts against a full bucket. distinct_nontrivial = distinct (limiter configuration, script) pairs with at least one contended or delayed request")
 	r.Meta("assumptions", []string{
 		"rate window slack = 2*kmax tokens (pay-later admission: a request is admitted when the previous debt is paid, its own tokens are charged afterwards; cap applied after subtraction)",
 		"a rejection is reported only if even a strict token bucket (admitted requests only) would have had the tokens within the timeout: tokens - available <= timeout*rate",
@@ -44,7 +44,7 @@ func TestCheck(t *testing.T) {
 		}
 	}
 	for _, rate := range []int64{1, 10, 1000} {
-		for _, mp := range []float64{math.Inf(1), 1, 10} {
+		for _, mp := range []float64{math.Inf(1), 0, 1, 10} {
 			for _, to := range []time.Duration{0, 50 * time.Millisecond} {
 				n := r.Pick(40, 600)
 				for k := 0; k < n; k++ {
@@ -83,6 +83,7 @@ type creq struct {
 	arrive  time.Duration
 	service time.Duration
 	outcome byte
+	cancel  time.Duration // > 0: the caller cancels its own context this long after arriving
 	// observed
 	entered  bool
 	enterAt  time.Duration
@@ -107,6 +108,10 @@ func concurrentLimiterCase(c *h.Case, max int, to time.Duration, k int) {
 		}
 		if k%5 == 0 {
 			reqs[i].arrive = time.Duration(rng.Intn(3)) * time.Millisecond // heavy contention
+		}
+		if to > 0 && k%3 == 1 && rng.Intn(4) == 0 {
+			// callers that give up on their own, before or after the limiter would
+			reqs[i].cancel = []time.Duration{time.Millisecond, 3 * time.Millisecond, 10 * time.Millisecond, 19 * time.Millisecond, 25 * time.Millisecond}[rng.Intn(5)]
 		}
 	}
 	var lim *limiter.ConcurrentLimiter
@@ -150,6 +155,27 @@ func concurrentLimiterCase(c *h.Case, max int, to time.Duration, k int) {
 			defer wg.Done()
 			time.Sleep(q.arrive)
 			ctx := context.WithValue(context.Background(), reqKey{}, q)
+			if q.cancel > 0 {
+				var cancel context.CancelFunc
+				if (q.arrive/time.Millisecond+q.cancel/time.Millisecond)%2 == 0 {
+					// a deadline of the caller's own
+					ctx, cancel = context.WithTimeout(ctx, q.cancel)
+				} else {
+					// an explicit cancellation
+					ctx, cancel = context.WithCancel(ctx)
+					d := q.cancel
+					over := make(chan struct{})
+					defer close(over) // (a goroutine still asleep when the bubble ends is a synctest deadlock)
+					go func() {
+						select {
+						case <-time.After(d):
+							cancel()
+						case <-over:
+						}
+					}()
+				}
+				defer cancel()
+			}
 			q.panicked, _ = h.Try(func() { _, q.err = client.InvokeContext(ctx, "f", nil) })
 			q.returnAt = time.Since(t0)
 		}()
@@ -172,7 +198,7 @@ func concurrentLimiterCase(c *h.Case, max int, to time.Duration, k int) {
 			}
 			if to == 0 {
 				c.Violation("timeout-without-timeout-configured:"+sig, fmt.Sprintf("request %d", i), rep)
-			} else if q.returnAt != q.arrive+to {
+			} else if want := q.arrive + minDur(to, q.cancel); q.returnAt != want {
 				c.Violation("timeout-at-the-wrong-instant:"+sig, fmt.Sprintf("request %d arrived at %v with limiter timeout %v and timed out at %v", i, q.arrive, to, q.returnAt), rep)
 			}
 			continue
@@ -254,13 +280,21 @@ func concurrentLimiterCase(c *h.Case, max int, to time.Duration, k int) {
 
 type reqKey struct{}
 
+// minDur returns the smaller positive duration (b == 0 means none).
+func minDur(a, b time.Duration) time.Duration {
+	if b > 0 && b < a {
+		return b
+	}
+	return a
+}
+
 func describe(reqs []*creq) []string {
 	var out []string
 	for i, q := range reqs {
 		if i >= 70 {
 			break
 		}
-		out = append(out, fmt.Sprintf("#%d arrive=%v service=%v outcome=%c entered=%v enterAt=%v returnAt=%v err=%v", i, q.arrive, q.service, q.outcome, q.entered, q.enterAt, q.returnAt, q.err))
+		out = append(out, fmt.Sprintf("#%d arrive=%v service=%v outcome=%c cancel=%v entered=%v enterAt=%v returnAt=%v err=%v", i, q.arrive, q.service, q.outcome, q.cancel, q.entered, q.enterAt, q.returnAt, q.err))
 	}
 	return out
 }
